@@ -350,7 +350,6 @@ class HttpParser(abc.ABC, Generic[_MsgT]):
         data_len = len(data)
         start_pos = 0
         loop = self.loop
-        max_line_length = self.max_line_size
 
         should_close = False
         while start_pos < data_len or self._payload_has_more_data:
@@ -382,12 +381,16 @@ class HttpParser(abc.ABC, Generic[_MsgT]):
                     line = data[start_pos:pos]
                     if SEP == b"\n":  # For lax response parsing
                         line = line.rstrip(b"\r")
+                    # The status/request line is limited by max_line_size,
+                    # everything after it is a header. Derived from the carried
+                    # state so the limit does not depend on where reads are split.
+                    max_line_length = (
+                        self.max_field_size if self._lines else self.max_line_size
+                    )
                     if len(line) > max_line_length:
                         raise LineTooLong(line[:100] + b"...", max_line_length)
 
                     self._lines.append(line)
-                    # After processing the status/request line, everything is a header.
-                    max_line_length = self.max_field_size
 
                     if len(self._lines) > self.max_headers:
                         raise BadHttpMessage("Too many headers received")
@@ -532,8 +535,13 @@ class HttpParser(abc.ABC, Generic[_MsgT]):
                     # bytes get appended to this line and leak in the error.
                     if b"\n" in self._tail:
                         raise BadHttpMessage("Bad line ending, expected CRLF")
-                    if len(self._tail) > self.max_line_size:
-                        raise LineTooLong(self._tail[:100] + b"...", self.max_line_size)
+                    max_line_length = (
+                        self.max_field_size if self._lines else self.max_line_size
+                    )
+                    # A trailing CR may be the first half of the line terminator.
+                    tail_len = len(self._tail) - self._tail.endswith(b"\r")
+                    if tail_len > max_line_length:
+                        raise LineTooLong(self._tail[:100] + b"...", max_line_length)
                     data = EMPTY
                     break
 
@@ -1009,7 +1017,9 @@ class HttpPayloadParser:
                     max_line_length = self._max_line_size
                     if self._chunk == ChunkState.PARSE_TRAILERS:
                         max_line_length = self._max_field_size
-                    if len(self._chunk_tail) > max_line_length:
+                    # A trailing CR may be the first half of the line terminator.
+                    tail_len = len(self._chunk_tail) - self._chunk_tail.endswith(b"\r")
+                    if tail_len > max_line_length:
                         raise LineTooLong(
                             self._chunk_tail[:100] + b"...", max_line_length
                         )
